@@ -50,12 +50,11 @@ Definition s_concat {A} (f : A -> stream) (l : list A) : stream :=
 Definition s_lift {A} (r : res A) (k : A -> stream) : stream :=
   match r with Ok a => k a | Raise e => s_err e end.
 
-(* walk_tree on a raw (non-Node) child value *)
-Fixpoint walk_raw (name : pstr) (j : json) : stream :=
-  if pstr_eqb name key_types_name then s_err EValue else
+(* walk_tree on a raw (non-Node) child value: dicts and lists are iterated, None and str are skipped *)
+Fixpoint walk_raw (j : json) : stream :=
   match j with
-  | JObj kv => fold_right (fun p acc => s_app (walk_raw (fst p) (snd p)) acc) (s_ok []) kv
-  | JArr l => fold_right (fun x acc => s_app (walk_raw name x) acc) (s_ok []) l
+  | JObj kv => fold_right (fun p acc => s_app (walk_raw (snd p)) acc) (s_ok []) kv
+  | JArr l => fold_right (fun x acc => s_app (walk_raw x) acc) (s_ok []) l
   | JNull | JStr _ => s_ok []          (* None and str children are skipped *)
   | _ => s_err EType
   end.
@@ -102,11 +101,8 @@ Section Walk.
         match n with
         | Leaf _ l =>
             match l with
-            | LEmptyList | LEmptyDict =>
-                if pstr_eqb name key_types_name then s_err EValue else s_ok []
-            | LRaw j => walk_raw name j
-            | LNone | LBytes =>
-                if pstr_eqb name key_types_name then s_err EValue else s_ok []
+            | LRaw j => walk_raw j
+            | _ => s_ok []
             end
         | Ref _ id =>
             match find_id id root with
@@ -114,13 +110,6 @@ Section Walk.
             | None => s_err EOther
             end
         | Node h subs =>
-            if pstr_eqb name key_types_name then
-              match h_kind h with
-              | KList => s_lift (unsafe E T root n)
-                           (fun u => match u with [] => s_ok [] | _ => s_err EValue end)
-              | _ => s_err EValue
-              end
-            else
             s_lift (node_format h) (fun val =>
             s_lift (self_safe E T h) (fun ss =>
             s_lift (match h_kind h with KJson => Ok [] | _ => unsafe E T root n end) (fun u =>
@@ -128,9 +117,32 @@ Section Walk.
                         r_safe := match u with [] => true | _ => false end; r_last := is_last |} in
             s_cons r
               (if is_skipped E skipped h then s_ok [] else
-               if twice_on_path h path then s_err ERecursion else
-               s_concat (fun p => walk fuel' (push_path h path) (slot_key (node_slot (fst p))) (S level) (snd p) (fst p))
-                        (combine subs (last_flags subs))))))
+               (* a DictNode's own key_types child is not shown; it must be a safe ListNode *)
+               let descend (subs' : list node) :=
+                 if twice_on_path h path then s_err ERecursion else
+                 s_concat (fun p => walk fuel' (push_path h path) (slot_key (node_slot (fst p))) (S level) (snd p) (fst p))
+                          (combine subs' (last_flags subs')) in
+               match h_kind h with
+               | KDict =>
+                   match subs with
+                   | kt :: rest =>
+                       let kt' := match kt with
+                                  | Ref _ id => match find_id id root with Some t => t | None => kt end
+                                  | _ => kt
+                                  end in
+                       match kt' with
+                       | Node hk _ =>
+                           match h_kind hk with
+                           | KList => s_lift (unsafe E T root kt')
+                                        (fun uk => match uk with [] => descend rest | _ => s_err EValue end)
+                           | _ => s_err EValue
+                           end
+                       | _ => s_err EValue
+                       end
+                   | [] => s_err EKey
+                   end
+               | _ => descend subs
+               end))))
         end
     end.
 End Walk.
